@@ -181,6 +181,35 @@ def check_graph(ctx, A, directed, terms=None):
                               "disagrees with the input: " + ", ".join(bad),
                               dict(key, fields=bad),
                               {"edgeless": not has, "single_node": n == 1})
+        # the network owns its weights: neither the caller's vector nor a
+        # copy's weights may be the same array
+        try:
+            w_in = w.astype(float).copy()
+            net0 = Network(adjacency=A.copy(), directed=directed,
+                           node_weights=w_in, silence_level=3)
+            cp0 = net0.copy()
+            w_in *= 2.0
+            ok = np.allclose(np.asarray(net0.node_weights, float), w) and \
+                abs(net0.total_node_weight - w.sum()) < 1e-9
+            nw = net0.node_weights
+            nw += 1.0                       # in-place edit of the original
+            ok2 = np.allclose(np.asarray(cp0.node_weights, float), w) and \
+                abs(cp0.total_node_weight - w.sum()) < 1e-9 and \
+                abs(cp0.mean_node_weight - w.mean()) < 1e-9
+            ctx.evaluations += 1
+            if not ok:
+                ctx.violation("Network(node_weights=array)",
+                              "the network's weights follow a later edit of "
+                              "the caller's array", key, {"aliasing": True})
+            elif not ok2:
+                ctx.violation("Network.copy",
+                              "the copy's weights follow a later in-place "
+                              "edit of the original's weights", key,
+                              {"aliasing": True})
+        except Exception as e:
+            ctx.violation("Network(node_weights=array)", "raises",
+                          dict(key, err=f"{type(e).__name__}: {e}"),
+                          {"kind": "exception"})
         # link attributes through copy / igraph / files
         base = paths.get("ndarray")
         if base is not None and has:
